@@ -91,18 +91,21 @@ CLAIMED = {
             "Static decision of the coverage / accumulation clauses of C15 (DESIGN section 3): that the system aggregates ARE sums over the individual bodies -- each of the seven calculators loops over every mobilized body but Ground exactly once, adds each body's contribution to zero-initialised accumulators on every iteration path, takes the contribution from getMobilizedBody(b) of the loop variable, and normalises a mass-weighted average by the very mass it summed (under mass != 0); "
             "kinetic energy covers every node of every non-Ground level; composite-body inertias are swept outermost level first over all nodes, each node adding every child's composite inertia shifted by that same child's phi. "
             "The per-body formulas (parallel-axis shifts, re-expression, station velocities, momentum about the mass centre) are numerical and NOT decided."),
-    "C01": ("COLUMNS (calcM / calcMInv built column by column as multiplyByM / multiplyByMInv of a unit vector: zero start, set, apply, reset on every path, column index, full range) and SWEEP (pass order, level direction, node coverage of the O(n) mass-matrix operators and the articulated-body inertia recursion)",
+    "C01": ("COLUMNS (calcM / calcMInv built column by column as multiplyByM / multiplyByMInv of a unit vector: zero start, set, apply, reset on every path, column index, full range) and SWEEP (pass order, level direction, node coverage of the O(n) mass-matrix operators and the articulated-body inertia recursion); INDEXSPACE sibling agreement of the hand-written node classes with the generic node template",
             "Static decision of the agreement-of-routes clause of C01 (DESIGN section 3): the explicit mass matrix and its explicit inverse ARE the O(n) operators applied to the unit vectors, so 'explicit matrix' and 'operator' cannot disagree; and each operator visits the tree in the order its recursion needs (inward pass from the outermost level to 0, outward pass from 0 up, every node, pass 1 before pass 2). "
             "That the per-node recursions compute M*v and M^-1*v, symmetry, positive definiteness and KE = u'Mu/2 are numerical and NOT decided."),
-    "C02": ("SWEEP (forward dynamics: Pass1 inward then Pass2 outward; inverse dynamics: accelerations outward then forces inward; level direction, node coverage) and SCATTER (prescribed / known-zero udots written over their whole lists before the inward pass)",
+    "C02": ("SWEEP (forward dynamics: Pass1 inward then Pass2 outward; inverse dynamics: accelerations outward then forces inward; level direction, node coverage) and SCATTER (prescribed / known-zero udots written over their whole lists before the inward pass); INDEXSPACE / OUTWRITE sibling agreement of the hand-written node classes with the generic node template",
             "Static decision of the sweep-discipline clause of C02 only (DESIGN section 3): the forward-dynamics and inverse-dynamics tree operators visit every node of every level in the direction each pass needs, in pass order, and forward dynamics scatters every prescribed and known-zero udot before sweeping. "
             "That the two recursions are inverses of each other (M*udot + f_inertial = f_applied, zero residuals, J'*F, Coriolis terms) is numerical and NOT decided."),
-    "C04": ("COLUMNS (the six explicit system / station / frame Jacobian builders as unit-vector applications of multiplyBySystemJacobian[Transpose]) and SWEEP (Jacobian operator outward, its transpose inward, body accelerations outward)",
+    "C04": ("COLUMNS (the six explicit system / station / frame Jacobian builders as unit-vector applications of multiplyBySystemJacobian[Transpose]) and SWEEP (Jacobian operator outward, its transpose inward, body accelerations outward); INDEXSPACE / OUTWRITE sibling agreement of the hand-written node classes with the generic node template",
             "Static decision of the agreement-of-routes clause of C04 (DESIGN section 3): every explicit Jacobian is, slot by slot, the O(n) operator applied to a unit vector / unit spatial force (zero start, set, apply, reset on every path, same-index slot, all indices), so explicit matrices and operators are one route; the operator sweeps outward and its transpose inward, each over every node. "
             "That J*u equals the reported velocities, the bias terms and the adjoint identity as an equality of values are numerical and NOT decided."),
     "C44": ("PROJECT (every inequality-carrying row family of the PGS sweep is projected by its bound function, on the same rows, on every path after its update; sweep order; no write of pi after the sweep), CLAMP (shape of the four bound functions), REPORT (convergence reported only under the tolerance test)",
             "Static decision of the projection discipline of the PGS impulse solver (DESIGN section 3, C44): every conditional impulse PGSImpulseSolver::solve can return was, after its last update, passed through the bound function of its family with the same row indices -- unilateral normals through boundUnilateral (zero exactly when pulling), bounded scalars through boundScalar (clamped to [lb, ub]), friction rows through boundVector / boundFriction (every component scaled onto the limit) -- and convergence is reported only under the tolerance test. "
             "Convergence of projected Gauss-Seidel, the values it converges to, the PLUS solver and how the caller builds the row families are NOT decided."),
+    "C14": ("COVER (every body receives its reaction), PAIRIDX (per-body arrays indexed by the body being processed; parent data from the body's own parent, only for non-Ground bodies), SWEEP (free-body method inward, hand-over to the parent on every non-root iteration), FRAME (adjacency and point-difference naming) on the two reaction-force routines",
+            "Static decision of the coverage / pairing / frame clauses of C14 (DESIGN section 3) for calcMobilizerReactionForces and ...UsingFreebodyMethod: every body gets a reaction, computed from that body's own articulated quantities and its own parent's acceleration, shifted by vectors whose names match how they are built; the free-body variant visits children before parents and hands every child's reaction to its parent's balance. "
+            "That the reactions satisfy each body's Newton-Euler equation is numerical and NOT decided."),
 }
 NA = {
  "C03": "derivative relation between numeric routines; needs symbolic differentiation (other family)",
@@ -110,7 +113,6 @@ NA = {
  "C06": "metamorphic equality of numerical results; the only shape clause is too thin to claim",
  "C11": "conservation along trajectories is a global numerical consequence",
  "C12": "power/energy gradient consistency is numerical (symbolic differentiation excluded)",
- "C14": "per-body Newton-Euler balance is numerical",
  "C20": "global error vs tolerance is numerical analysis",
  "C25": "element-wise value semantics of index arithmetic; no shape rule decides it",
  "C27": "orthonormality and round trips are numerical",
